@@ -1,4 +1,5 @@
 import JenVerif.Props.Common
+import JenVerif.Lemmas.GenNamesLemmas
 /-
   C18 — Standard-library packages are referred to by their real names.
 
@@ -73,6 +74,16 @@ theorem qualifier_is_registered {cfg : Cfg} {f : FileS} (hH : HintsOk f) (hS : S
     (hl : isLocal f p = false) :
     (register cfg f p).1 = (lookupImp (register cfg f p).2 p).name :=
   (register_returns_stored hH hS hl).1.symm
+
+/-- gennames: every entry (p, n) of the table it produces comes from a line of `go list` with the
+    requested Standard flag, a package name other than `main`, a path accepted by the filter and
+    un-vendored to p, and n is that line's package name (the first such line wins).  The lines
+    themselves (what `go list` prints for the installed toolchain) and the regexp filter are
+    parameters; the harness runs the real gennames and `go list` and compares. -/
+theorem gennames_lines (accepts : Str → Bool) (standard novendor : Bool) (ls : List GenNames.Line) (p n : Str)
+    (h : (p, n) ∈ GenNames.getPackages accepts standard novendor ls []) :
+    ∃ l ∈ ls, l.standard = standard ∧ l.name ≠ b!"main" ∧ accepts l.path = true ∧ GenNames.unvendorPath l.path = p ∧ l.name = n :=
+  GenNamesLemmas.gennames_lines accepts standard novendor ls p n h
 
 -- non-vacuity: the regenerated table has entries, e.g. math/rand and crypto/rand share a name
 example : AList.lookup Gen.stdHints b!"math/rand" = some b!"rand" ∧ AList.lookup Gen.stdHints b!"crypto/rand" = some b!"rand" := by
